@@ -78,7 +78,8 @@ def run_demo(wt, mutdir):
         names += re.findall(r"^func (Test\w+)\(", open(f).read(), re.M)
     mod = "bigtable" if d.startswith("bigtable") else "storage"
     pkg = "./" + os.path.relpath(dst, os.path.join(wt, mod))
-    rc, out = sh(["go", "test", "-vet=off", "-count=1", "-run", "^(" + "|".join(names) + ")$", pkg], cwd=os.path.join(wt, mod), timeout=900)
+    tags = ["-tags", "verif"] if any("//go:build verif" in open(f).read() for f in demos) else []
+    rc, out = sh(["go", "test", "-vet=off", "-count=1"] + tags + ["-run", "^(" + "|".join(names) + ")$", pkg], cwd=os.path.join(wt, mod), timeout=900)
     for t in placed:
         os.remove(t)
     return rc, out, mod
